@@ -163,7 +163,15 @@ def build_gaussian(cuqi, mean, g, geometry=None):
     kw = {g["param"]: v}
     if geometry is not None:
         kw["geometry"] = geometry
-    return cuqi.distribution.Gaussian(mean, **kw)
+    if g.get("mds") is None:
+        return cuqi.distribution.Gaussian(mean, **kw)
+    # the dim > MIN_DIM_SPARSE branches (eigen-decomposition based factors, sparse storage) at small sizes
+    old_mds = cuqi.config.MIN_DIM_SPARSE
+    cuqi.config.MIN_DIM_SPARSE = g["mds"]
+    try:
+        return cuqi.distribution.Gaussian(mean, **kw)
+    finally:
+        cuqi.config.MIN_DIM_SPARSE = old_mds
 
 
 def step_geometry(cuqi, n, reps):
@@ -578,7 +586,34 @@ def gen_spd(rng, d):
     return M.tolist()
 
 
+def gen_structured(rng, d, structure):
+    """SPD dyadic matrices that are NOT generic: exactly decoupled blocks (also in a permuted order), arrow-shaped zeros"""
+    sizes = []
+    left = d
+    while left > 0:
+        k = min(left, rng.choice([1, 2, 2, 3]))
+        sizes.append(k)
+        left -= k
+    M = np.zeros((d, d))
+    i = 0
+    for k in sizes:
+        M[i:i + k, i:i + k] = np.array(gen_spd(rng, k))
+        i += k
+    if structure == "arrow":
+        M = np.diag([rng.choice([2, 3, 4]) for _ in range(d)]).astype(float)
+        for j in range(1, d):
+            M[0, j] = M[j, 0] = rng.choice([0.5, -0.5, 0])
+        M[0, 0] = d + 1.0
+    elif structure == "permblock":
+        perm = list(range(d))
+        rng.shuffle(perm)
+        M = M[np.ix_(perm, perm)]
+    return M.tolist()
+
+
 def gen_cov(rng, kind, dim, param="cov"):
+    if kind in ("block", "permblock", "arrow"):
+        return {"param": param, "kind": "matrix", "val": gen_structured(rng, dim, kind), "structure": kind}
     if kind == "scalar":
         return {"param": param, "kind": "scalar", "val": rng.choice([0.25, 0.5, 1, 2, 1.5, 4])}
     if kind == "vec1":
@@ -1074,15 +1109,26 @@ def build_classes(cuqi, meta):
     D = cuqi.distribution
     m, n = meta["m"], meta["n"]
     A = np.array(meta["A"], dtype=float)
+    dgk = meta.get("dgeom")
+    dg = None
+    if dgk == "step":
+        dg = step_geometry(cuqi, n, A.shape[1] // n)
+    elif dgk == "kl":
+        dg = cuqi.geometry.KLExpansion(np.linspace(0, 1, n))
+    elif dgk == "named":
+        dg = cuqi.geometry.Continuous1D(n)
     if meta["linear"]:
-        model = cuqi.model.LinearModel(A)
+        model = cuqi.model.LinearModel(A, domain_geometry=dg)
+    elif dgk is not None:
+        Nf = A.shape[1]
+        model = cuqi.model.Model(lambda x: A @ x, m, dg, jacobian=lambda x: A)
     elif meta.get("model_grad", True):
         model = cuqi.model.Model(lambda x: A @ x, m, n, gradient=lambda direction, wrt: A.T @ direction)
     else:
         model = cuqi.model.Model(lambda x: A @ x, m, n)
     pk = meta["prior"]
     if pk == "Gaussian":
-        x = D.Gaussian(np.zeros(n), 2.0)
+        x = D.Gaussian(np.zeros(n), 2.0, geometry=dg) if dg is not None else D.Gaussian(np.zeros(n), 2.0)
     elif pk == "GMRF":
         x = D.GMRF(np.zeros(n), 2.0)
     elif pk == "LMRF":
@@ -1420,6 +1466,12 @@ def case_setup(cuqi, meta):
         fail = "%s: returned point/geometry/objective are not the solver's point on the density's geometry and -logd" % which
     elif (rec["gradfunc"] is not None) != dens_grad:
         fail = "%s: gradient available=%s but handed over=%s" % (which, dens_grad, rec["gradfunc"] is not None)
+    elif meta["prior"] in PRIOR_HAS_GRAD and dens_grad != expected_gradient(meta, which):
+        fail = "%s: the density %s a gradient, but for prior %s / model linear=%s gradient=%s / domain geometry %s it should %s" % (
+            which, "offers" if dens_grad else "refuses", meta["prior"], meta["linear"], meta.get("model_grad", True), meta.get("dgeom") or "default",
+            "refuse (par2fun is not the identity)" if dens_grad else "offer one")
+    if fail is None:
+        fail = gradient_inconsistent(rec["func"], rec["gradfunc"], probe)
     elif not np.array_equal(rec["x0"], start_expected):
         fail = "%s: start point %s, expected %s" % (which, rec["x0"], start_expected)
     elif (rec["cls"] == "L_BFGS_B") != (meta["prior"] == "CMRF" and has_grad):
@@ -1429,7 +1481,7 @@ def case_setup(cuqi, meta):
     expr = "check_setup %s %s %s %s %s %s %s %s" % (
         P, cbool(dens_grad), copt(meta["x0"], cqvec), cbool(rec["cls"] == "L_BFGS_B"), cbool(rec["gradfunc"] is not None),
         cqvec(rec["x0"].tolist()), cbool(ret_ok and obj_ok), cbool(label_ok))
-    return Case(expr=expr, meta=meta, cell="setup/%s/%s,%s/x0:%s" % (which, meta["prior"], "linear" if meta["linear"] else ("general" if meta.get("model_grad", True) else "general-nograd"),
+    return Case(expr=expr, meta=meta, cell="setup/%s/%s%s,%s/x0:%s" % (which, meta["prior"], "/dgeom:" + meta["dgeom"] if meta.get("dgeom") else "", "linear" if meta["linear"] else ("general" if meta.get("model_grad", True) else "general-nograd"),
                                                                      "given" if meta["x0"] is not None else "default"),
                 kind="DECISION", impl_fail=fail, signature=SIG_SETUP if fail else "")
 
@@ -1457,7 +1509,8 @@ def case_opt(cuqi, meta):
         BP, A_eff, m, n, computed = build_problem(cuqi, meta)
         which = meta["which"]
         x0 = None if meta.get("x0") is None else make_x0(cuqi, {"style": meta.get("x0_style", "ndarray"), "val": meta["x0"]}, BP)
-        r = quiet(getattr(BP, which), x0=x0) if x0 is not None else quiet(getattr(BP, which))
+        with _SolverSpy(cuqi) as spy:
+            r = quiet(getattr(BP, which), x0=x0) if x0 is not None else quiet(getattr(BP, which))
     finally:
         cuqi.config.MAX_DIM_INV = old
     x = np.asarray(r, dtype=float)
@@ -1472,7 +1525,11 @@ def case_opt(cuqi, meta):
         At = f_T(A)
         ref = f_mv(f_inv(f_mm(f_mm(At, Pe), A)), f_mv(At, f_mv(Pe, b)))
     fail = None
-    if r.info.get("solver") == "direct":
+    if spy.ran and getattr(spy, "func", None) is not None:
+        fail = gradient_inconsistent(spy.func, spy.gradfunc, spy.start + 0.125 * np.arange(1, n + 1))
+    if fail:
+        pass
+    elif r.info.get("solver") == "direct":
         fail = "%s took the closed-form branch although it was to be kept off it" % which
     elif not close_v(x, ref, tol=5e-5):
         fail = "%s via the optimiser returned %s (success=%s) but the maximiser is %s" % (which, x, r.info.get("success"), [float(v) for v in ref])
@@ -1486,8 +1543,11 @@ def case_opt(cuqi, meta):
             except (NotImplementedError, AttributeError):
                 pass
     if which == "MAP":
+        # the model's specification side takes covariances: hand it the exact covariance meant by (parameterisation, value)
+        ge_exact = meta["ce"] if meta["ce"]["param"] == "cov" else {"param": "cov", "kind": "matrix", "val": Ce}
+        gx_exact = meta["cx"] if meta["cx"]["param"] == "cov" else {"param": "cov", "kind": "matrix", "val": Cx}
         expr = "check_opt_map %s %s %s %s %s %s %s %s" % (cnat(m), cnat(n), cqmat(A_eff.tolist()), cqvec(meta["b"]), cqvec(model_x0(meta, n)),
-                                                          c_gdesc(meta["ce"], m), c_gdesc(meta["cx"], n), cqvec(x.tolist()))
+                                                          c_gdesc(ge_exact, m), c_gdesc(gx_exact, n), cqvec(x.tolist()))
     else:
         expr = "check_opt_ml %s %s %s %s %s %s" % (cnat(m), cnat(n), cqmat(A_eff.tolist()), cqvec(meta["b"]), c_gdesc(meta["ce"], m), cqvec(x.tolist()))
     return Case(expr=expr, meta=meta, cell="opt/%s/%s/Ce:%s,Cx:%s/x0:%s" % (which, meta["force"], meta["ce"]["kind"], meta["cx"]["kind"], "given" if meta.get("x0") else "default"),
@@ -1566,10 +1626,28 @@ def gen_ccov_metas(ctx):
     return out
 
 
+def true_map(meta):
+    """the parameter-to-parameter matrix of the forward map, written down from the meta data alone"""
+    A = np.array(meta["A"], dtype=float)
+    geom = meta.get("geom", "default")
+    c = float(meta.get("c", 2))
+    if geom in ("step", "step_mat"):
+        return A @ np.kron(np.eye(meta["n"]), np.ones((meta["reps"], 1)))
+    if geom == "mapped_lin":
+        return c * A
+    if geom == "range_mapped_lin":
+        return A / c
+    if geom == "kl":
+        import cuqi
+        G = cuqi.geometry.KLExpansion(np.linspace(0, 1, meta["n"]))
+        return A @ np.column_stack([np.asarray(G.par2fun(e), dtype=float) for e in np.eye(meta["n"])])
+    return A
+
+
 def curvature_ok(meta, m, n, which, mu_min=0.5):
     """scipy stops at |grad|_inf <= 1e-5, so the returned point is within sqrt(n) 1e-5 / mu of the maximiser (mu = smallest
     eigenvalue of the Hessian, C15_strongly_concave_distance): cells compared to 5e-5 need mu >= 0.5"""
-    A = np.array(meta["A"], dtype=float)
+    A = true_map(meta)
     Pe = np.linalg.inv(np.array([[float(v) for v in r] for r in intended_cov(meta["ce"], m)]))
     H = A.T @ Pe @ A
     if which == "MAP":
@@ -1592,6 +1670,7 @@ class _SolverSpy:
                 class Rec(cls):
                     def solve(self2):
                         spy.ran.append(nm)
+                        spy.func, spy.gradfunc, spy.start = self2.func, self2.gradfunc, np.array(self2.x0, dtype=float)
                         return cls.solve(self2)
                 return Rec
             setattr(self.cuqi.solver, nm, mk())
@@ -1600,6 +1679,20 @@ class _SolverSpy:
     def __exit__(self, *a):
         for nm, cls in self.saved.items():
             setattr(self.cuqi.solver, nm, cls)
+
+
+def gradient_inconsistent(func, gradfunc, p):
+    """what the optimiser is handed as a gradient must be the derivative of what it is handed as objective (central differences,
+    exact for the quadratic objectives of the linear-Gaussian cells up to rounding)"""
+    if gradfunc is None:
+        return None
+    p = np.array(p, dtype=float)
+    g = np.asarray(gradfunc(p), dtype=float).ravel()
+    h = 1e-4
+    fd = np.array([(float(func(p + h * e)) - float(func(p - h * e))) / (2 * h) for e in np.eye(len(p))])
+    if g.shape != fd.shape or np.max(np.abs(g - fd)) > 1e-5 * (1 + np.max(np.abs(fd))):
+        return "the gradient handed to the optimiser at %s is %s but the derivative of its objective is %s" % (p.tolist(), g.tolist(), np.round(fd, 7).tolist())
+    return None
 
 
 def label_of(info):
@@ -1622,7 +1715,8 @@ def case_ml(cuqi, meta):
             r, exc = None, e
     linear = meta["model"] != "general"
     P = "(mk_pinfo %s %s %s %s %s %s)" % (cnat(0), cnat(0), cbool(linear), cnat(m), cnat(n), cbool(True))
-    cell = "ml/%s/Ce:%s%s/%s/x0:%s" % (meta["model"], meta["ce"]["kind"] + (":const" if meta.get("constvec") else ""),
+    cell = "ml/%s-%s%s/Ce:%s%s/%s/x0:%s" % (meta["model"], meta.get("geom", "default"), "/mds" if meta["ce"].get("mds") is not None else "",
+                                       meta["ce"].get("structure", meta["ce"]["kind"]) + (":const" if meta.get("constvec") else ""),
                                        "" if meta["ce"]["param"] == "cov" else "/param:" + meta["ce"]["param"],
                                        "rank-deficient" if meta.get("rankdef") else ("under" if m < n else ("square" if m == n else "over")),
                                        meta["x0arg"]["rel"] if meta.get("x0arg") else "default")
@@ -1630,12 +1724,16 @@ def case_ml(cuqi, meta):
         return Case(expr="false", meta=meta, cell=cell, kind="DECISION",
                     impl_fail="ML raised %r on a linear-Gaussian problem whose likelihood has a maximiser" % (exc,), signature=SIG_ML)
     x = np.asarray(r, dtype=float)
+    if meta.get("geom") in NONID:
+        A_eff = computed["A_true"]          # ML goes through forward(), not get_matrix(): the true parameter map applies in both states
     A = [[F(v) for v in row] for row in A_eff.tolist()]
     b = [F(v) for v in meta["b"]]
     Ce = intended_cov(meta["ce"], m)
     Pe = f_inv(Ce)
     At = f_T(A)
     fail = None
+    if spy.ran and getattr(spy, "func", None) is not None:
+        fail = gradient_inconsistent(spy.func, spy.gradfunc, spy.start + 0.125 * np.arange(1, n + 1))
     route_expr = "check_entry_route true %s %s %s %s" % (P, cnat(2000), cnat(label_of(r.info)), cbool(bool(spy.ran)))
     if not (isinstance(r, cuqi.array.CUQIarray) and r.geometry is BP.likelihood.geometry and x.shape == (n,)):
         fail = "ML result is not a CUQIarray of the parameter dimension on the likelihood's geometry"
@@ -1714,6 +1812,38 @@ def gen_ml_metas(ctx):
                 if k % 3 == 0:
                     meta["disp"] = bool(k % 2)
                 out.append(meta)
+    # the geometry lattice of the property's quantifier on the OPTIMISER route: ML goes through forward()/gradient(), so every
+    # geometry (also the matrix models whose get_matrix() is wrong) must give the weighted least-squares point of the true map
+    for geom, form in [("named", "dense"), ("named", "func"), ("step", "func"), ("step_mat", "dense"), ("kl", "dense"),
+                       ("mapped_lin", "dense"), ("range_mapped_lin", "dense")]:
+        for ke in ("scalar", "vector", "matrix"):
+            for (m, n) in [(3, 2), (3, 3), (4, 3)]:
+                k += 1
+                c = dict(m=m, n=n, ke=ke, kx="scalar", pe="cov", px="cov", model=form, geom=geom, mean="vec")
+                for attempt in range(300):
+                    meta = instantiate(rng, c, op="ml")
+                    if curvature_ok(meta, m, n, "ML"):
+                        break
+                else:
+                    continue
+                out.append(meta)
+    # dense matrices with structure (exactly decoupled blocks, permuted blocks, arrow) and the dim > MIN_DIM_SPARSE branches at
+    # small sizes (config.MIN_DIM_SPARSE lowered while the Gaussian is built) as well as the ordinary dense branch
+    for ke in ("block", "permblock", "arrow", "matrix"):
+        for pe in ("cov", "prec", "sqrtcov"):
+            for mds in (None, 1):
+                for (m, n) in [(4, 3), (5, 2), (6, 3)]:
+                    k += 1
+                    c = dict(m=m, n=n, ke=ke, kx="scalar", pe=pe, px="cov", model=forms[k % 4], geom="default", mean="vec")
+                    for attempt in range(300):
+                        meta = instantiate(rng, c, op="ml")
+                        if curvature_ok(meta, m, n, "ML"):
+                            break
+                    else:
+                        continue
+                    if mds is not None:
+                        meta["ce"]["mds"] = mds
+                    out.append(meta)
     # rank-deficient systems (a repeated / a zero column, a repeated row pattern): ML is not unique
     for ke in ("scalar", "vector", "matrix"):
         for (m, n) in [(3, 3), (4, 3), (3, 2), (2, 3)]:
@@ -1784,6 +1914,8 @@ def dispatch(cuqi, meta, fixed, cell=""):
         return case_ml(cuqi, meta)
     if op == "ccov":
         return case_ccov(cuqi, meta)
+    if op == "sprec":
+        return case_sprec(cuqi, meta)
     raise ValueError(op)
 
 
@@ -1840,7 +1972,27 @@ def gen_setup_metas(ctx):
                     out.append({"op": "setup", "prior": prior, "lik": "Gaussian", "linear": linear, "model_grad": mg, "which": which,
                                 "m": m, "n": n, "A": gen_A(rng, m, n), "b": [dy(rng) for _ in range(m)],
                                 "x0": [dy(rng) for _ in range(n)] if x0given else None, "point": [dy(rng) for _ in range(n)]})
+    # domain geometries: identity-like (gradient available) and expansions (Model.gradient must refuse: par2fun is not the identity)
+    for dgk in ("named", "step", "kl"):
+        for linear in (True, False):
+            for which in ("MAP", "ML"):
+                m, n = rng.choice([(3, 2), (3, 3), (4, 3)])
+                ncol = n * 2 if dgk == "step" else n
+                out.append({"op": "setup", "prior": "Gaussian", "lik": "Gaussian", "linear": linear, "model_grad": True, "which": which, "dgeom": dgk,
+                            "m": m, "n": n, "A": gen_A(rng, m, ncol), "b": [dy(rng) for _ in range(m)], "x0": None, "point": [dy(rng) for _ in range(n)]})
     return out
+
+
+# which densities have a gradient, written down independently of the objects under test:
+# priors with an implemented gradient; models with a gradient through an identity-type geometry (exact type) only
+PRIOR_HAS_GRAD = {"Gaussian": True, "GMRF": True, "LMRF": False, "CMRF": True, "Laplace": False, "Cauchy": True}
+
+
+def expected_gradient(meta, which):
+    model_grad = (meta["linear"] or meta.get("model_grad", True)) and meta.get("dgeom") in (None, "named")
+    if which == "ML":
+        return bool(model_grad)
+    return bool(model_grad and PRIOR_HAS_GRAD.get(meta["prior"], False))
 
 
 def gen_opt_metas(ctx):
@@ -1863,6 +2015,82 @@ def gen_opt_metas(ctx):
                     meta.update(which=which, force=force, m=m, n=n, x0=[dy(rng, -2, 2) for _ in range(n)] if rng.random() < 0.5 else None,
                                 x0_style=rng.choice(["ndarray", "list", "cuqiarray"]))
                     out.append(meta)
+    return out
+
+
+def gen_opt_struct_metas(ctx):
+    """MAP by the optimiser (general Model) with structured dense covariances, ordinary and dim > MIN_DIM_SPARSE branches"""
+    rng = ctx.rng
+    out = []
+    for ke, kx in [("block", "block"), ("permblock", "matrix"), ("matrix", "arrow"), ("arrow", "permblock")]:
+        for pe, px in [("cov", "cov"), ("prec", "sqrtcov"), ("sqrtcov", "prec")]:
+            for mds in (None, 1):
+                m, n = rng.choice([(4, 4), (5, 4), (4, 5)])
+                c = dict(m=m, n=n, ke=ke, kx=kx, pe=pe, px=px, model="general", geom="default", mean="vec")
+                for attempt in range(300):
+                    meta = instantiate(rng, c, op="opt")
+                    if curvature_ok(meta, m, n, "MAP"):
+                        break
+                else:
+                    continue
+                if mds is not None:
+                    meta["ce"]["mds"] = mds
+                    meta["cx"]["mds"] = mds
+                meta.update(which="MAP", force="general", m=m, n=n, x0=None)
+                out.append(meta)
+    return out
+
+
+def case_sprec(cuqi, meta):
+    """the factor a Gaussian derives (or stores): R^T R must be the precision of the density, in both storage regimes"""
+    g, d = meta["g"], meta["dim"]
+    G = build_gaussian(cuqi, np.zeros(d), g)
+    R = G.sqrtprec
+    R = np.asarray(R.todense()) if hasattr(R, "todense") else np.asarray(R, dtype=float)
+    Pobs = R.T @ R
+    cell = "sprec/%s/%s%s" % (g["param"], g.get("structure", g.get("factor", g["kind"])), "/mds" if g.get("mds") is not None else "")
+    if not np.all(np.isfinite(Pobs)):
+        return Case(expr="false", meta=meta, cell=cell, kind="EXACT", impl_fail="sqrtprec holds non-finite values", signature=SIG_CCOV)
+    exactC = intended_cov(g, d)
+    exactP = f_inv(exactC)
+    fail = None
+    if not all(close_v(r, e, tol=1e-8) for r, e in zip(Pobs.tolist(), exactP)):
+        fail = "sqrtprec^T sqrtprec = %s but the precision of the specified Gaussian is %s" % (np.round(Pobs, 6).tolist(), [[round(float(v), 6) for v in r] for r in exactP])
+    else:
+        x = np.arange(1, d + 1) / 2.0
+        q = -2.0 * float(np.ravel(G._logupdf(x))[0])
+        qe = float(sum(F(a) * F(b2) * pij for a, row in zip(x, exactP) for b2, pij in zip(x, row)))
+        if abs(q - qe) > 1e-8 * (1 + abs(qe)):
+            fail = "-2 logupdf(x) = %r but (x-mean)^T P (x-mean) = %r" % (q, qe)
+    expr = "check_precision %s %s %s" % (cnat(d), c_gdesc(g, d), cqmat(Pobs.tolist()))
+    return Case(expr=expr, meta=meta, cell=cell, kind="EXACT", impl_fail=fail, signature=SIG_CCOV if fail else "")
+
+
+def gen_sprec_metas(ctx):
+    rng = ctx.rng
+    out = []
+    for par in ("cov", "prec", "sqrtcov"):
+        for kind in ("scalar", "vector", "diagm", "matrix", "block", "permblock", "arrow"):
+            for mds in (None, 1):
+                for d in (2, 3, 4, 5, 6):
+                    if kind in ("block", "permblock", "arrow") and d < 3:
+                        continue
+                    g = gen_cov(rng, kind, d, par)
+                    if mds is not None:
+                        g["mds"] = mds
+                    out.append({"op": "sprec", "dim": d, "g": g})
+    for fac in FACTORS:
+        for mds in (None, 1):
+            for d in (2, 3, 4):
+                g = {"param": "sqrtprec", "kind": "matrix", "val": gen_factor(rng, d, fac), "factor": fac}
+                if mds is not None:
+                    g["mds"] = mds
+                out.append({"op": "sprec", "dim": d, "g": g})
+    if ctx.thorough:      # the real threshold: dims 75 / 76 / 77 with block structure (exact Fraction inverse of the blocks)
+        for par in ("cov", "prec"):
+            for d in (75, 76, 77):
+                g = gen_cov(rng, "block", d, par)
+                out.append({"op": "sprec", "dim": d, "g": g, "big": True})
     return out
 
 
@@ -1958,6 +2186,10 @@ def run(ctx):
         cases.append(safe(case_opt, cuqi, meta))
     for meta in gen_ccov_metas(ctx):
         cases.append(safe(case_ccov, cuqi, meta))
+    for meta in gen_sprec_metas(ctx):
+        cases.append(safe(case_sprec, cuqi, meta))
+    for meta in gen_opt_struct_metas(ctx):
+        cases.append(safe(case_opt, cuqi, meta))
     for meta in gen_ml_metas(ctx):
         cases.append(safe(case_ml, cuqi, meta))
     for meta in gen_optng_metas(ctx):
@@ -1989,7 +2221,7 @@ def classify(meta, detail):
         return classify_map(meta, len(A), len(A[0]))
     if op == "sample" and meta.get("geom") in NONID:
         return SIG_NONLIN if meta.get("geom") == "mapped_sq" else SIG_GEOM
-    return {"sample": SIG_SAMPLE, "route": SIG_ROUTE, "cascade": SIG_ROUTE, "handover": SIG_ROUTE, "setup": SIG_SETUP, "opt": SIG_OPT, "optng": SIG_OPT, "optns": SIG_NONSMOOTH, "ml": SIG_ML, "ccov": SIG_CCOV}.get(op, "C15")
+    return {"sample": SIG_SAMPLE, "route": SIG_ROUTE, "cascade": SIG_ROUTE, "handover": SIG_ROUTE, "setup": SIG_SETUP, "opt": SIG_OPT, "optng": SIG_OPT, "optns": SIG_NONSMOOTH, "ml": SIG_ML, "ccov": SIG_CCOV, "sprec": SIG_CCOV}.get(op, "C15")
 
 
 def search(ctx):
